@@ -75,6 +75,11 @@ class Dumper:
     def prop(self, kind, name):
         return self._ask("prop\t%s\t%s" % (kind, name))
 
+    def find_pike(self, pattern, flags, no_opt, hay, start, ascii=False):
+        cps = ",".join(str(ord(c)) if isinstance(c, str) else str(c) for c in pattern)
+        h = ",".join(str(ord(c)) for c in hay)
+        return self._ask("%s\t%s\t%d\t%s\t%d\t%s" % ("findpa" if ascii else "findp", flags, 1 if no_opt else 0, cps, start, h))
+
     def find_ascii(self, pattern, flags, no_opt, hay, start):
         cps = ",".join(str(ord(c)) if isinstance(c, str) else str(c) for c in pattern)
         h = ",".join(str(ord(c)) for c in hay)
